@@ -97,7 +97,7 @@ fn run_case(c: &WtCase, seed: u64, idx: u64, st: &mut Stats) -> Vec<Violation> {
     // every other session starts with unsaved drafts of all modules that come and go
     if idx % 2 == 1 {
         for (m, pm) in c.printed.iter().enumerate() {
-            if let Err(e) = lsp.disturb(&uris[m], &pm.text) {
+            if let Err(e) = lsp.disturb(&uris[m], &pm.text, (m + idx as usize / 2) % 2 == 0) {
                 return vec![Violation::new(
                     "the language server died or stopped answering while a draft was opened and closed",
                     json!({"signature": "C18 server-failure on draft", "error": crate::util::clip(&format!("{e:?}"), 500)}),
